@@ -299,12 +299,15 @@ func guardF48Local(d *document.Document, s Step) (Step, string) {
 		if boundaryLive >= 0 && tombAdjacent(removed, boundaryLive) {
 			return skip, "F48"
 		}
-	case "aadd", "ains", "amove", "amovefront", "aset":
+	case "aadd", "ains", "amove", "amovefront", "aset", "adel":
 		a := root.GetArray("a")
 		if a == nil {
 			return s, ""
 		}
 		n := a.Len()
+		if s.Op == "adel" && n > 0 {
+			return s, "" // a pure delete inserts nothing (on an empty array the interpreter executes it as an append)
+		}
 		var removed []bool
 		for _, nd := range a.RGATreeList().AllNodes() {
 			removed = append(removed, nd.IsRemoved())
@@ -327,10 +330,23 @@ func guardF48Local(d *document.Document, s Step) (Step, string) {
 		if k >= 0 && tombAdjacent(removed, k) {
 			return skip, "F48"
 		}
-	case "trins", "trtext":
+	case "trins", "trtext", "trdel", "trstyle":
 		tr := root.GetTree("tr")
 		if tr == nil {
 			return s, ""
+		}
+		if s.Op == "trdel" || s.Op == "trstyle" {
+			// they insert nothing - except on a tree without a live paragraph,
+			// where the interpreter executes them as "insert <p> at 0"
+			live := 0
+			for _, ch := range tr.Root().Index.Children(true) {
+				if !ch.Value.IsRemoved() {
+					live++
+				}
+			}
+			if live > 0 {
+				return s, ""
+			}
 		}
 		all := tr.Root().Index.Children(true)
 		var ps []int // physical index of live paragraphs
